@@ -259,6 +259,12 @@ func IsPermanentError(err error) bool {
 	if errors.Is(err, context.DeadlineExceeded) {
 		return false
 	}
+	// A TimeoutError stays transient when it is wrapped (fmt.Errorf("%w"), ...),
+	// whatever words its operation name happens to contain.
+	var timeoutErr *TimeoutError
+	if errors.As(err, &timeoutErr) {
+		return false
+	}
 
 	errMsg := strings.ToLower(err.Error())
 
